@@ -59,7 +59,7 @@ const (
 	mUsage         maskSet = 1 << iota // usage rows: index of the row / zero-count rows (finding 14)
 	mCheckRefresh                      // health checks: ServiceName/ServiceTags re-copied from the service
 	mGatewayStamp                      // gateway-services rows: RaftIndex (and ServiceKind of wildcard rows) rebuilt from the config entry
-	mTopologyStamp                     // mesh-topology rows: RaftIndex re-stamped with the snapshot's last index
+	mTopologyStamp                     // mesh-topology rows: stamps, references and left-over rows depend on the write order
 	mPeeringIndex                      // index rows "peering"/"peering-trust-bundles": overwritten by the last restored row
 	mDialerSecret                      // peering-secret-uuids: a dialing peer's stream secret is added by the restore
 	mStaleKindName                     // kind-service-names: rows no registered instance backs any more are not rebuilt
@@ -73,7 +73,7 @@ var maskKind = map[maskSet]string{
 	mUsage:         "usage-row-index-after-restore",
 	mCheckRefresh:  "check-service-fields-refreshed-by-restore",
 	mGatewayStamp:  "gateway-services-rows-restamped-by-restore",
-	mTopologyStamp: "mesh-topology-rows-restamped-by-restore",
+	mTopologyStamp: "mesh-topology-rows-depend-on-write-order",
 	mPeeringIndex:  "peering-index-rows-after-restore",
 	mDialerSecret:  "dialer-secret-uuid-added-by-restore",
 	mStaleKindName: "stale-kind-service-name-dropped-by-restore",
@@ -109,6 +109,7 @@ type canonCtx struct {
 	masks maskSet
 	svcs  map[svcKey]svcInfo // services of the store the value came from
 	kinds map[string]bool    // "kind\x00name" pairs some registered local instance backs
+	wgw   map[string]bool    // gateways that have a wildcard ("*") mapping
 }
 
 var (
@@ -133,7 +134,14 @@ func (c *canonCtx) unbackedWildcard(v reflect.Value) bool {
 	if v.Type() != gsType {
 		return false
 	}
-	return v.FieldByName("FromWildcard").Bool()
+	if v.FieldByName("FromWildcard").Bool() {
+		return true
+	}
+	// an explicit entry of a gateway that also has a wildcard: the registration path overwrites
+	// it with a copy of the wildcard row (checkGatewayWildcardsAndUpdate does not look for it),
+	// the config-entry path keeps it
+	gw := strings.ToLower(v.FieldByName("Gateway").FieldByName("Name").String())
+	return c.wgw[gw] && v.FieldByName("Service").FieldByName("Name").String() != structs.WildcardSpecifier
 }
 
 func (c *canonCtx) render(v interface{}) string {
@@ -208,10 +216,8 @@ func (c *canonCtx) walk(v reflect.Value, sb *strings.Builder, depth int, skip []
 		}
 		var refreshed *svcInfo
 		if c.masks&mGatewayStamp != 0 && t == gsType {
-			skip = append(append([]string{}, skip...), "RaftIndex")
-			if v.FieldByName("FromWildcard").Bool() || v.FieldByName("GatewayKind").String() == string(structs.ServiceKindIngressGateway) {
-				skip = append(skip, "ServiceKind")
-			}
+			// ServiceKind records which registrations existed when the row was last written
+			skip = append(append([]string{}, skip...), "RaftIndex", "ServiceKind")
 		}
 		if c.masks&mTopologyStamp != 0 && t.Name() == "upstreamDownstream" {
 			skip = append(append([]string{}, skip...), "RaftIndex")
@@ -344,6 +350,8 @@ type fullDump struct {
 	// usageRaw: the usage rows as stored (id, index, count), for re-confirming finding 14
 	usageRaw []string
 	rows     int
+	// stale: some check carries a ServiceName / ServiceTags other than its service's current ones
+	stale bool
 }
 
 func servicesOf(st *state.Store) map[svcKey]svcInfo {
@@ -375,11 +383,45 @@ func servicesAndKindsOf(st *state.Store) (map[svcKey]svcInfo, map[string]bool) {
 	return out, kinds
 }
 
+// staleChecks: some service check carries a ServiceName / ServiceTags other than its service's.
+func staleChecks(st *state.Store) bool {
+	svcs := servicesOf(st)
+	found := false
+	st.WalkAllTables(func(table string, item interface{}) bool {
+		if hc, ok := item.(*structs.HealthCheck); ok && hc.ServiceID != "" {
+			if si, ok := svcs[svcKey{strings.ToLower(hc.Node), strings.ToLower(hc.ServiceID), strings.ToLower(hc.PeerName)}]; ok {
+				if si.name != hc.ServiceName || strings.Join(si.tags, "\x00") != strings.Join(hc.ServiceTags, "\x00") {
+					found = true
+				}
+			}
+		}
+		return true
+	})
+	return found
+}
+
+// topologyPairs: the (upstream, downstream) pairs the registered proxies give rise to.
+func topologyPairs(st *state.Store) map[string]bool {
+	out := map[string]bool{}
+	st.WalkAllTables(func(table string, item interface{}) bool {
+		if sn, ok := item.(*structs.ServiceNode); ok && sn.PeerName == "" && sn.ServiceKind == structs.ServiceKindConnectProxy {
+			for _, u := range sn.ServiceProxy.Upstreams {
+				if u.DestinationType != structs.UpstreamDestTypePreparedQuery {
+					out[strings.ToLower(u.DestinationName+"\x00"+sn.ServiceProxy.DestinationServiceName)] = true
+				}
+			}
+		}
+		return true
+	})
+	return out
+}
+
 func dumpStore(st *state.Store) *fullDump {
 	svcs, kinds := servicesAndKindsOf(st)
 	wild := hasWildcard(st)
+	pairs := topologyPairs(st)
 	sc := &canonCtx{}
-	lc := &canonCtx{masks: mAll, svcs: svcs, kinds: kinds}
+	lc := &canonCtx{masks: mAll, svcs: svcs, kinds: kinds, wgw: wildcardGateways(st)}
 	d := &fullDump{strict: tableDump{}, lenient: tableDump{}}
 	dialers := map[string]bool{}   // peering id -> dials
 	active := map[string]string{} // peering id -> active stream secret
@@ -434,15 +476,22 @@ func dumpStore(st *state.Store) *fullDump {
 				return true
 			}
 		case "mesh-topology":
+			// strict: the row; lenient: only that the (upstream, downstream) pair exists, and only for
+			// pairs the registered proxies give rise to (or, without wildcard gateways, gateway rows)
 			rv := reflect.Indirect(reflect.ValueOf(item))
 			up := rv.FieldByName("Upstream").FieldByName("Name").String()
-			_ = up
-			if rv.FieldByName("Refs").Len() == 0 && wild {
-				var sb strings.Builder
-				sc.walk(reflect.ValueOf(row), &sb, 0, skip)
-				d.strict[table] = append(d.strict[table], sb.String())
-				return true
+			down := rv.FieldByName("Downstream").FieldByName("Name").String()
+			var sb strings.Builder
+			sc.walk(reflect.ValueOf(row), &sb, 0, skip)
+			d.strict[table] = append(d.strict[table], sb.String())
+			if rv.FieldByName("Refs").Len() == 0 {
+				if !wild {
+					d.lenient[table] = append(d.lenient[table], fmt.Sprintf("{gateway pair %q<-%q}", up, down))
+				}
+			} else if pairs[strings.ToLower(up+"\x00"+down)] {
+				d.lenient[table] = append(d.lenient[table], fmt.Sprintf("{proxy pair %q<-%q}", up, down))
 			}
+			return true
 		case "kind-service-names":
 			ksn := item.(*state.KindServiceName)
 			var sb strings.Builder
@@ -463,7 +512,8 @@ func dumpStore(st *state.Store) *fullDump {
 	// lenient: only the UUIDs of secrets held for peerings this cluster ACCEPTED count (a restore
 	// also records a dialing peer's active stream secret, which the online path never does)
 	for _, p := range secretRows {
-		if dialers[p.PeerID] {
+		if dial, known := dialers[p.PeerID]; dial || !known {
+			// a dialing peer's secrets, or secrets whose peering row is gone (whether it dialed is no longer known)
 			continue
 		}
 		for _, id := range []string{p.GetEstablishment().GetSecretID(), p.GetStream().GetPendingSecretID(), p.GetStream().GetActiveSecretID()} {
@@ -488,6 +538,7 @@ func dumpStore(st *state.Store) *fullDump {
 		}
 	}
 	sort.Strings(d.usageRaw)
+	d.stale = staleChecks(st)
 	return d
 }
 
@@ -573,13 +624,23 @@ type queryResult struct {
 	res    interface{}
 	svcs   map[svcKey]svcInfo
 	kinds  map[string]bool
+	wgw    map[string]bool
 	wild   bool
 	strict string
 }
 
 // idxMask: the deviations that change the INDEX a query family reports.
-func idxMask(name string) maskSet {
-	switch strings.SplitN(name, ":", 2)[0] {
+func idxMask(name string, relax bool) maskSet {
+	fam := strings.SplitN(name, ":", 2)[0]
+	if relax {
+		// consequences of stale check fields: deleting / rewriting such a check bumps the index
+		// row of the service name it carries
+		switch fam {
+		case "ServiceNodes", "CheckServiceNodes", "CheckConnectServiceNodes", "ServiceChecks":
+			return mCheckRefresh | idxMask(name, false)
+		}
+	}
+	switch fam {
 	case "ServiceUsage", "NodeUsage", "PeeringUsage", "KVUsage", "ConfigEntryUsage":
 		return mUsage
 	case "GatewayServices", "DumpGatewayServices", "CheckConnectServiceNodes":
@@ -633,10 +694,33 @@ func hasWildcard(st *state.Store) bool {
 	return found
 }
 
-func (q *queryResult) render(masks maskSet) string {
-	c := &canonCtx{masks: masks, svcs: q.svcs, kinds: q.kinds}
+// wildcardGateways: the gateways that have a "*" mapping.
+func wildcardGateways(st *state.Store) map[string]bool {
+	out := map[string]bool{}
+	st.WalkAllTables(func(table string, item interface{}) bool {
+		if gs, ok := item.(*structs.GatewayService); ok && gs.Service.Name == structs.WildcardSpecifier {
+			out[strings.ToLower(gs.Gateway.Name)] = true
+		}
+		return true
+	})
+	return out
+}
+
+func (q *queryResult) render(masks maskSet) string { return q.renderR(masks, false) }
+
+// renderR: [relax] = a check with stale service fields existed at or after the cut, so queries
+// keyed by the check's ServiceName (ServiceChecks) may list it under the other name.
+func (q *queryResult) renderR(masks maskSet, relax bool) string {
+	c := &canonCtx{masks: masks, svcs: q.svcs, kinds: q.kinds, wgw: q.wgw}
+	if relax && masks&mCheckRefresh != 0 && strings.HasPrefix(q.name, "ServiceChecks:") {
+		return "idx=* (checks by service name, with stale service names around: masked)"
+	}
 	if masks&mWildcardUnbacked != 0 && q.wild && strings.HasPrefix(q.name, "ServiceTopology:") {
 		return "idx=* (topology of a store with wildcard gateways: masked)"
+	}
+	if masks&mTopologyStamp != 0 && strings.HasPrefix(q.name, "ServiceTopology:") {
+		// the upstream / downstream sets and decisions are read off the mesh-topology rows
+		return "idx=* (service topology: masked)"
 	}
 	if kn, ok := q.res.(kindNames); ok {
 		var names []string
@@ -650,7 +734,7 @@ func (q *queryResult) render(masks maskSet) string {
 		}
 		return fmt.Sprintf("idx=%d%s %s", q.idx, q.err, c.render(names))
 	}
-	if idxMask(q.name)&masks != 0 {
+	if idxMask(q.name, relax)&masks != 0 {
 		return fmt.Sprintf("idx=*%s %s", q.err, c.render(q.res))
 	}
 	return fmt.Sprintf("idx=%d%s %s", q.idx, q.err, c.render(q.res))
@@ -661,6 +745,7 @@ func (q *queryResult) render(masks maskSet) string {
 func runQueries(st *state.Store, u *universe) []queryResult {
 	svcs, kinds := servicesAndKindsOf(st)
 	wild := hasWildcard(st)
+	wgw := wildcardGateways(st)
 	var out []queryResult
 	em := structs.DefaultEnterpriseMetaInDefaultPartition()
 	add := func(name string, idx uint64, res interface{}, err error) {
@@ -668,7 +753,7 @@ func runQueries(st *state.Store, u *universe) []queryResult {
 		if err != nil {
 			e = " err=" + err.Error()
 		}
-		q := queryResult{name: name, idx: idx, err: e, res: res, svcs: svcs, kinds: kinds, wild: wild}
+		q := queryResult{name: name, idx: idx, err: e, res: res, svcs: svcs, kinds: kinds, wild: wild, wgw: wgw}
 		q.strict = q.render(0)
 		out = append(out, q)
 	}
